@@ -207,7 +207,11 @@ static const uint8_t SECRET32[32] = {0x01, 0x02, 0x03, 0x04, 0x05, 0x06, 0x07, 0
                                      0x0c, 0x0d, 0x0e, 0x0f, 0x10, 0x11, 0x12, 0x13, 0x14, 0x15, 0x16,
                                      0x17, 0x18, 0x19, 0x1a, 0x1b, 0x1c, 0x1d, 0x1e, 0x1f, 0x20};
 static const uint8_t SALT8[8] = {0x9e, 0x7c, 0xa9, 0x22, 0x23, 0x78, 0x63, 0x40};
-static const uint8_t IDCTX8[8] = {0x37, 0xcb, 0xf3, 0x21, 0x00, 0x17, 0xa2, 0xd3};
+/* ID Context values are prefixes of this string; lengths 23 / 24 / 25 / 40 sit around the CBOR byte-string head that grows
+ * from one to two bytes at 24 (the ID Context is a bstr in the HKDF info, RFC 8613 3.2.1, and travels in the OSCORE option) */
+static const uint8_t IDCTX8[40] = {0x37, 0xcb, 0xf3, 0x21, 0x00, 0x17, 0xa2, 0xd3, 0x01, 0x02, 0x03, 0x04, 0x05, 0x06,
+                                   0x07, 0x08, 0x09, 0x0a, 0x0b, 0x0c, 0x0d, 0x0e, 0x0f, 0x10, 0x11, 0x12, 0x13, 0x14,
+                                   0x15, 0x16, 0x17, 0x18, 0x19, 0x1a, 0x1b, 0x1c, 0x1d, 0x1e, 0x1f, 0x20};
 static const uint8_t SID7[7] = {0x00, 0xa1, 0xa2, 0xa3, 0xa4, 0xa5, 0xa6}; /* leading zero on purpose */
 static const uint8_t RID7[7] = {0xb0, 0x00, 0xb2, 0xb3, 0xb4, 0xb5, 0xb6};
 static const int IDLEN[4] = {0, 1, 3, 7};
@@ -245,12 +249,14 @@ static const struct ctxspec CORE_CTX[] = {
     {0, 1, 0, 8, 16}, {0, 3, 1, 0, 32}, {0, 7, 8, 8, 32}, {1, 0, 8, 0, 16}, {1, 1, 1, 8, 32}, {1, 3, 0, 0, 16},
     {1, 7, 8, 8, 16}, {3, 0, 0, 8, 16}, {3, 1, 8, 0, 32}, {3, 3, 1, 8, 16}, {3, 7, 0, 0, 16}, {7, 0, 1, 8, 32},
     {7, 1, 0, 0, 32}, {7, 3, 8, 8, 16}, {7, 7, 1, 0, 32}, {7, 7, 8, 8, 16},
+    {1, 7, 23, 0, 16}, {1, 1, 24, 8, 16}, {3, 3, 25, 0, 16}, {7, 1, 40, 8, 32},
 };
 #define NCORE_CTX ((int)(sizeof CORE_CTX / sizeof CORE_CTX[0]))
 /* quick: every id length on each side, every id-context / salt / secret value at least once */
 static const struct ctxspec CORE_CTX_Q[] = {
     {0, 1, 0, 8, 16}, {1, 0, 8, 0, 16}, {1, 1, 1, 8, 32}, {3, 7, 0, 0, 16},
     {7, 3, 8, 8, 16}, {7, 7, 1, 0, 32}, {0, 7, 8, 8, 32}, {3, 0, 0, 8, 16},
+    {1, 1, 24, 8, 16}, {3, 3, 25, 0, 16}, {7, 1, 40, 8, 32},
 };
 #define NCORE_CTX_Q ((int)(sizeof CORE_CTX_Q / sizeof CORE_CTX_Q[0]))
 
@@ -1259,7 +1265,7 @@ struct ctxvar {
   const char *param;
   char desc[60];
   refoscore_params_t p; /* client-view parameters */
-  uint8_t secret[32], salt[9], sid[8], rid[8], idctx[9];
+  uint8_t secret[32], salt[9], sid[8], rid[8], idctx[41];
 };
 
 static int
@@ -1275,7 +1281,7 @@ make_ctx_variants(const refoscore_params_t *base, struct ctxvar *v, int max) {
   memcpy(x->salt, SALT8, 8);                                                                                           \
   memcpy(x->sid, base->sender_id, base->sender_id_len);                                                                \
   memcpy(x->rid, base->recipient_id, base->recipient_id_len);                                                          \
-  memcpy(x->idctx, IDCTX8, 8);                                                                                         \
+  memcpy(x->idctx, IDCTX8, 40);                                                                                        \
   x->p.master_secret = x->secret;                                                                                      \
   if (x->p.master_salt_len)                                                                                            \
     x->p.master_salt = x->salt;                                                                                        \
